@@ -196,8 +196,9 @@ def rule_CT(ctx, R):
                         built += 1
                         c = colls[0]
                         if c[2] in SORTING:
-                            lf = lock_list_field(ctx, c[2])
-                            lv = c[4][lf] if lf is not None and lf < len(c[4]) else None
+                            from rules_struct import lock_list_path, descend
+                            lp = lock_list_path(ctx, c[2])
+                            lv = descend(c, lp) if lp is not None else None
                             view = lv if lv and lv[0] == "agg" and lv[1] == "slice" else None
                             if view is None:
                                 bad_l2 = "the lock list stored in %s is not built from get_ptrs of the data (%r)" % (c[2].split("::")[-1], lv)
